@@ -51,6 +51,9 @@ func (p *Impl) Activate(activation bus.Activation, helper probe.ProbeSignalHelpe
 	p.Helper = helper
 	p.Act = activation
 	p.mu.Unlock()
+	if err := helper.UpdateGain(0); err != nil {
+		return err
+	}
 	return helper.UpdateLevel(p.InitLevel)
 }
 
@@ -135,6 +138,9 @@ func (p *Impl) OnLevelChange(v int32) error {
 	}
 	return nil
 }
+
+// OnGainChange accepts every value of the second property.
+func (p *Impl) OnGainChange(v int32) error { return nil }
 
 // FakeEndPoint is a net.EndPoint that records what is sent.
 type FakeEndPoint struct {
